@@ -111,7 +111,7 @@ def recase(rng, s, mode):
     return ''.join(c.lower() if rng.random() < 0.3 else c for c in s)
 
 
-PROFILES = ['tiny', 'small', 'medium', 'kmeans', 'hirsch', 'ratio', 'dups']
+PROFILES = ['tiny', 'small', 'medium', 'kmeans', 'hirsch', 'ratio', 'dups']     # + 'large' (thorough tier, explicit only)
 
 
 def gen_workload(rng, profile=None, kinds=('dna', 'rna', 'protein'), weights=None):
@@ -137,6 +137,14 @@ def gen_workload(rng, profile=None, kinds=('dna', 'rna', 'protein'), weights=Non
         psub = rng.choice([0.02, 0.1, 0.25]); pindel = rng.choice([0.0, 0.01, 0.03])
     elif profile == 'ratio':
         n, L = rng.randint(3, 10), rng.randint(150, 900)
+    elif profile == 'large':
+        # "thousands of sequences / thousands of residues" - few of these, thorough tier only
+        if rng.random() < 0.5:
+            n, L = rng.randint(600, 2200), rng.randint(15, 60)
+            shape = rng.choice(['clusters', 'balanced', 'caterpillar'])
+        else:
+            n, L = rng.randint(3, 12), rng.randint(2500, 6000)
+            psub = rng.choice([0.02, 0.1]); pindel = rng.choice([0.0, 0.01])
     else:  # dups
         n, L = rng.randint(3, 30), rng.randint(5, 150)
     seqs = family(rng, alpha, n, L, shape, psub, pindel)
